@@ -168,6 +168,7 @@ func (c *simConn) Write(p []byte) (int, error) {
 		}
 		c.wtotal += n
 		c.wfailAt = c.wtotal
+		c.ev.add("writefail/%s", vHex(p))
 		return n, c.wfail
 	}
 	c.writes = append(c.writes, append([]byte(nil), p...))
@@ -747,6 +748,11 @@ func (e *vEngine) op(f []string) {
 		e.conn.mu.Lock()
 		e.conn.wfail = vWriteErr{}
 		e.conn.wfailAt = e.conn.wtotal + n
+		e.conn.mu.Unlock()
+	case "writeok":
+		e.conn.mu.Lock()
+		e.conn.wfail = nil
+		e.conn.wfailAt = -1
 		e.conn.mu.Unlock()
 	case "stallw":
 		e.conn.mu.Lock()
